@@ -612,7 +612,12 @@ func (t *StringTree) NewScanner(key string) *StringCursor {
 		n = child
 	}
 	ln := n.(*stringLeafNode)
-	return newStringCursor(ln, stringSearchGreaterThanOrEqualTo(key, ln.runts))
+	index := stringSearchGreaterThanOrEqualTo(key, ln.runts)
+	if index < len(ln.runts) && ln.runts[index] < key {
+		// every key of this leaf is smaller than key: start at the next leaf
+		index++
+	}
+	return newStringCursor(ln, index)
 }
 
 // StringCursor is used to enumerate key-value pairs from the tree in
